@@ -52,16 +52,30 @@ class _Run:
         self.id_lost = {}        # id -> how the id became unknown
         self.last_id = {}        # ("o", slot) | ("c", c) -> id of the latest accepted registration
         self.gen_ids = []
-        self.ext = False         # an *effective* force (one an unforced call would have refused) was accepted
+        self.taint_x = set()     # objects / ids that took part in an *effective* force (one an unforced call would
+        self.taint_id = set()    # have refused): forced replacement of an id, forced second id of an object
         self.remote = 0
         self.accepted = 0
+        self._ix, self._iids = [], []
 
     # ------------------------------------------------------------------ helpers
-    def tier(self):
-        return "extended" if self.ext else "core"
+    def tier(self, xs, ids):
+        """'extended' iff an object or id involved in the finding took part in an effective force earlier"""
+        xs = [x for x in xs if x is not None]
+        ids = [i for i in ids if i is not None]
+        if any(x in self.taint_x for x in xs) or any(i in self.taint_id for i in ids):
+            return "extended"
+        return "core"
+
+    def involve(self, xs=(), ids=(), reset=False):
+        """objects / ids the current step is about (decides the tier of a finding)"""
+        if reset:
+            self._ix, self._iids = [], []
+        self._ix += list(xs)
+        self._iids += list(ids)
 
     def viol(self, kind, key, msg):
-        self.ctx.violate(kind, "%s:%s" % (self.tier(), key),
+        self.ctx.violate(kind, "%s:%s" % (self.tier(list(self._ix), list(self._iids)), key),
                          "step %d %s: %s" % (self.i, json.dumps(self.op, sort_keys=True), msg))
         raise _Stop()
 
@@ -89,12 +103,7 @@ class _Run:
         ids = self.ids_of(xk)
         if not ids:
             return self.lost.get(xk, NEVER)
-        s = "registered"
-        if len(ids) > 1:
-            s += "-multi"
-        if any(self.table[i][1] for i in ids):
-            s += "-weak"
-        return s
+        return "registered" if len(ids) == 1 else "registered-multi"
 
     def resolve(self, spec):
         if spec is None or not spec.startswith("@"):
@@ -129,6 +138,10 @@ class _Run:
             if "unknown object" in s:
                 return ("unknown",)
             return ("comm", type(x).__name__, s[:200])
+        except E.DaemonError as x:
+            if str(x) == "unknown object":      # the daemon's answer to a request for an id it does not know
+                return ("unknown",)
+            return ("error", type(x).__name__, str(x)[:200])
         except Exception as x:  # noqa - a remote exception is an outcome
             return ("error", type(x).__name__, str(x)[:200])
         return ("ok", r)
@@ -168,6 +181,7 @@ class _Run:
         if sorted(got) != want:
             missing = sorted(set(want) - set(got))
             extra = sorted(set(got) - set(want))
+            self.involve(ids=missing + extra)
             self.viol("registry-diverged", label, "daemon reports %r, model has %r (missing %r, unexpected %r)"
                       % (sorted(got), want, missing, extra))
 
@@ -181,6 +195,7 @@ class _Run:
         if force and oid in RESERVED:
             return      # never generated; a shrunk / resolved plan must not do it either
         mine = self.ids_of(xk)
+        self.involve([xk], [oid] + mine, reset=True)
         dup_obj = bool(mine)
         dup_id = oid is not None and (oid in self.table or oid in RESERVED)
         try:
@@ -225,10 +240,14 @@ class _Run:
             ctx.probe("generated_id")
         if got[2] != self.loc:
             self.viol("register-wrong-uri", "location", "returned uri is at %r, the daemon at %r" % (got[2], self.loc))
-        if force and (dup_obj or dup_id):
-            self.ext = True
-            ctx.probe("forced")
         old = self.table.get(new_id)
+        if force and ((old is not None and old[0] != xk) or [i for i in mine if i != new_id]):
+            # effective force: another occupant replaced, or a further id for an object that already had one
+            self.taint_x.add(xk)
+            self.taint_id.add(new_id)
+            if old is not None:
+                self.taint_x.add(old[0])
+            ctx.probe("forced")
         self.table[new_id] = (xk, weak)
         if old is not None and old[0] != xk and not self.ids_of(old[0]):
             self.lost[old[0]] = "replaced"
@@ -245,6 +264,7 @@ class _Run:
             xk = self.xkey(x)
             ids = self.ids_of(xk) if x[0] != "d" else []
             st = "daemon-object" if x[0] == "d" else self.state_of(xk)
+            self.involve([xk], ids, reset=True)
             try:
                 self.daemon.unregister(self.xobj(x))
                 got = ("ok",)
@@ -269,6 +289,7 @@ class _Run:
         oid = self.resolve(op["id"])
         if oid is None or oid == DISP_ID:
             return
+        self.involve([], [oid], reset=True)
         try:
             self.daemon.unregister(oid)
             got = ("ok",)
@@ -293,6 +314,7 @@ class _Run:
     def do_uri(self, op):
         if "id" in op:
             oid = self.resolve(op["id"]) or "nope"
+            self.involve([], [oid], reset=True)
             try:
                 u = self.daemon.uriFor(oid)
                 got = ("ok", u.object, u.location)
@@ -305,9 +327,11 @@ class _Run:
         x = op["x"]
         xk = self.xkey(x)
         ids = self.ids_of(xk)
+        self.involve([xk], ids, reset=True)
         try:
             u = self.daemon.uriFor(self.xobj(x))
             got = ("ok", u.object, u.location)
+            self.involve(ids=[u.object])
         except E.DaemonError as e:
             got = ("refused", str(e)[:120])
         except Exception as e:  # noqa
@@ -343,13 +367,16 @@ class _Run:
             target = self.xkey(x)
             ids = self.ids_of(target)
             st = self.state_of(target)
+            self.involve([target], reset=True)
             if not ids:
                 target = None
             arg = self.xobj(x)
         p = None
+        self.involve([target], ids, reset="id" in op)
         try:
             p = self.daemon.proxyFor(arg)
             got = ("ok", p._pyroUri.object, p._pyroUri.location)
+            self.involve(ids=[got[1]])
         except E.DaemonError as e:
             got = ("refused", str(e)[:120])
         except Exception as e:  # noqa
@@ -386,9 +413,12 @@ class _Run:
         self.ctx.probe("call_routed")
 
     def do_list(self, ser):
+        self.involve(reset=True)
         out = self.remote_call(DAEMON_ID, ser, "registered")
         want = sorted(list(self.table) + list(RESERVED))
         self.sched.ev("list", self.i, out[0])
+        if out[0] == "ok":
+            self.involve(ids=sorted(set(want) ^ set(out[1])))
         if out[0] != "ok":
             self.viol("listing-failed", out[0], "registered() through the Pyro.Daemon object failed: %r" % (out,))
         if sorted(out[1]) != want:
@@ -403,6 +433,7 @@ class _Run:
             return
         if oid == DAEMON_ID:
             return self.do_list(ser)
+        self.involve([], [oid], reset=True)
         n0 = len(self.log)
         out = self.remote_call(oid, ser)
         new = self.log[n0:]
@@ -435,6 +466,7 @@ class _Run:
         xk = ("o", self.serial[k])
         ids = self.ids_of(xk)
         st = self.state_of(xk)
+        self.involve([xk], ids, reset=True)
         n0 = len(self.log)
         rp = None
         p = self.proxy(DISP_ID, ser)
@@ -447,6 +479,7 @@ class _Run:
             if isinstance(r, CL.Proxy):
                 rp = r
                 out = ("proxy", r._pyroUri.object, r._pyroUri.location)
+                self.involve(ids=[out[1]])
             elif isinstance(r, list) and len(r) == 2 and r[0] == "byvalue":
                 out = ("value", r[1])
             else:
@@ -499,6 +532,7 @@ class _Run:
         ids = self.ids_of(xk)
         if any(not self.table[i][1] for i in ids):
             return      # strongly registered: the daemon legitimately keeps it alive
+        self.involve([xk], ids, reset=True)
         self.settle()   # no server thread is inside a request (a frame could still hold the object)
         w = weakref.ref(self.pool[k])
         del self.pool[k]
@@ -658,11 +692,45 @@ class RegistryWorld(World):
             return {"op": "proxy", "id": self._idref(rng), "ser": rng.choice(SERIALIZERS)}
         return {"op": "list", "ser": rng.choice(SERIALIZERS)}
 
+    def _motif(self, rng, gtier):
+        """a short directed sequence (id re-use after an object lost it, second id for one object) ending in a step
+        that looks at the first object; it is interleaved with random steps"""
+        a, b = rng.sample(range(3), 2)
+        ida = "@o%d" % a
+        xb = rng.choice([["o", b], ["o", b], ["c", rng.randrange(2)]])
+        first = {"op": "reg", "x": ["o", a], "id": rng.choice(LIT_IDS + [None, None]), "force": False, "weak": rng.random() < 0.5}
+        weak_b = xb[0] == "o" and rng.random() < 0.3
+        r = rng.random()
+        if gtier == "extended" and r < 0.3:       # forced replacement of a's id
+            seq = [first, {"op": "reg", "x": xb, "id": ida, "force": True, "weak": weak_b}]
+        elif gtier == "extended" and r < 0.6:     # forced second id for a, then possibly one of them goes
+            seq = [first, {"op": "reg", "x": ["o", a], "id": rng.choice(["id1", "id2", None]), "force": True, "weak": rng.random() < 0.3}]
+            q = rng.random()
+            if q < 0.4:
+                seq.append({"op": "unreg", "by": "id", "id": ida})
+            elif q < 0.6:
+                seq.append({"op": "unreg", "by": "id", "id": rng.choice(LIT_IDS)})
+        else:                                     # a loses its id, somebody else takes it
+            lose = {"op": "unreg", "by": "id", "id": ida} if rng.random() < 0.65 else {"op": "unreg", "by": "obj", "x": ["o", a]}
+            seq = [first, lose]
+            if rng.random() < 0.75:
+                seq.append({"op": "reg", "x": xb, "id": ida, "force": False, "weak": weak_b})
+        look = rng.choice([{"op": "gc", "k": a}, {"op": "gc", "k": a}, {"op": "unreg", "by": "obj", "x": ["o", a]},
+                           {"op": "proxy", "x": ["o", a], "ser": rng.choice(SERIALIZERS)}, {"op": "uri", "x": ["o", a]},
+                           {"op": "ret", "k": a, "ser": rng.choice(RET_SERS)}, {"op": "call", "id": ida, "ser": rng.choice(SERIALIZERS)},
+                           {"op": "reg", "x": ["o", a], "id": rng.choice(LIT_IDS + [None]), "force": False, "weak": False}])
+        return seq + [look]
+
     def gen(self, rng, tier):
         big = tier == "thorough"
         gtier = rng.choice(["core", "core", "extended", "extended", "extended"])
-        n = rng.randint(3, 16 if big else 10)
-        ops = [self._op(rng, gtier) for _ in range(n)]
+        if rng.random() < 0.4:
+            ops = self._motif(rng, gtier)
+            for _ in range(rng.randint(0, 8 if big else 5)):
+                ops.insert(rng.randint(0, len(ops)), self._op(rng, gtier))
+        else:
+            n = rng.randint(3, 16 if big else 10)
+            ops = [self._op(rng, gtier) for _ in range(n)]
         return {"servertype": rng.choice(["thread", "multiplex"]), "gtier": gtier, "ops": ops, "sweep": True,
                 "sweep_ser": [rng.choice(RET_SERS) for _ in range(3)],
                 "net": {"p_frag": rng.choice([0.0, 0.0, 0.3])}, "p_block": rng.choice([0.0, 0.0, 0.3])}
@@ -685,9 +753,18 @@ class RegistryWorld(World):
     def scenario(self, ctx):
         run = _Run(ctx)
         try:
-            run.run()
-        except _Stop:
-            pass
+            try:
+                run.run()
+            except _Stop:
+                pass
+            # close the daemon while time is still virtual: otherwise the thread server's __del__ (run by the
+            # collector between runs) closes its worker pool with a REAL time.sleep(0.1)
+            try:
+                run.daemon.close()
+            except (S.Deadlock, S.StepCap, S.HarnessError):
+                raise
+            except Exception:  # noqa - tidying up only
+                pass
         finally:
             run.pool.clear()
             O.reset_class_marks()
